@@ -125,6 +125,19 @@ package modules
 //@   at go (*Module).runEventHook assert onl && arg1 != nil && who == arg1.hookingModule
 //@   loop 0 invariant true
 
+// an event hook is work of the module that registered it: it runs as that module's worker
+// (counted in its worker counter, handed its context), and the hook function gets that worker's context
+//@ func (*Module).runEventHook
+//@   requires hook != nil
+//@   nopanic off
+//@   modifies *
+//@   at call (*Module).RunWorker assert arg0 == hook.hookingModule
+
+//@ func (*Module).runEventHook$1
+//@   nopanic off
+//@   modifies *
+//@   at call dynamic assert arg0 == ctx
+
 // a module becomes ready to stop only when it is online and no module depending on it is above offline
 //@ func (*Module).readyToStop
 //@   requires cntOK(m) && m.enabled != nil && m.enabledAsDependency != nil
